@@ -20,12 +20,12 @@ Prog = collections.namedtuple('Prog', 'outer calls context route taint')
 
 CONTEXTS = ('return', 'assign', 'if', 'ifelse', 'tryfinally', 'tryexcept', 'with', 'listcomp',
             'nested', 'lambda', 'decoy_before', 'decoy_after',
-            'arg_of_call', 'nested_arg_of_call', 'lambda_arg_of_call', 'nested2', 'result_attr')
+            'arg_of_call', 'nested_arg_of_call', 'lambda_arg_of_call', 'nested2', 'result_attr', 'ifelse_unres')
 NESTED_CONTEXTS = ('nested', 'lambda', 'nested_arg_of_call', 'lambda_arg_of_call', 'nested2')
 ROUTES = ('global', 'closure', 'attr1', 'attr2', 'method', 'param', 'partial')
 TAINTS_ANY = ('rebind', 'augassign', 'delrebind', 'fortarget', 'withas', 'walrus', 'starunpack', 'nonlocal',
               'importas', 'fromimportas', 'defname', 'classname', 'matchcapture', 'matchstar')
-TAINTS_VK = ('methodcall', 'itemstore', 'handover')
+TAINTS_VK = ('methodcall', 'itemstore', 'handover', 'handoverkw')
 
 
 def star(outer, kind):
@@ -65,6 +65,8 @@ def call_expr(prog, uid, j):
     if cs.vk in ('other', 'both'):
         parts.append('**OTHER_K')
     ref = callee_ref(prog.route, uid, j)
+    if prog.context == 'ifelse_unres' and j == 1:
+        ref = 'UNRES%s[0]' % uid         # a callee no static reading can resolve
     if prog.route == 'partial':
         return 'functools.partial(%s)' % ', '.join([ref] + parts)
     return '%s(%s)' % (ref, ', '.join(parts))
@@ -115,6 +117,8 @@ def taint_stmts(prog):
         return ['%s.count(0)' % name]
     if kind == 'handover':
         return ['SINK(%s)' % name]
+    if kind == 'handoverkw':
+        return ['SINK(opts=%s)' % name]
     raise AssertionError(kind)
 
 
@@ -125,7 +129,7 @@ def body_lines(prog, uid):
     before = taint_stmts(prog) if prog.taint and prog.taint[2] == 'before' else []
     after = taint_stmts(prog) if prog.taint and prog.taint[2] == 'after' else []
     e0 = E[0]
-    if ctx == 'ifelse':
+    if ctx in ('ifelse', 'ifelse_unres'):
         e1 = E[1] if len(E) > 1 else E[0]
         core = ['if FLAG:', '    r = ' + e0, 'else:', '    r = ' + e1]
     elif len(E) > 1:
@@ -194,6 +198,8 @@ def render(prog, uid):
     for j, cs in enumerate(prog.calls):
         lines.append('def C%s_%d(%s):' % (uid, j, callee_params(cs.callee, prog.route)))
         lines.append(ind + 'return 0')
+    if prog.context == 'ifelse_unres':
+        lines.append('UNRES%s = [C%s_1]' % (uid, uid))
     if prog.route in ('attr1', 'attr2'):
         holder = 'NS' if prog.route == 'attr1' else 'NS.sub'
         for j in range(n):
